@@ -4,7 +4,7 @@ import random
 
 META = {'explanation': 'ue/se encoders and decoders are proved for all integers / all bit contents with loop invariants; '
                        'uie/sie and stream concatenation are bounded stand-ins on the real functions.'}
-EXTRA_TASKS = ['bounded_codes']
+EXTRA_TASKS = ['bounded_codes', 'creation_routes_isolation']
 
 
 def ref_ue(i):
@@ -146,3 +146,13 @@ def bounded_codes(tier='quick', seed=0):
                          'bound': f'integers in [-{lim}, {lim}] + random to 2^200; every bit string of length <= {maxlen} as decoder input; random streams of <= 6 codes',
                          'evaluations': evals, 'failures': wit}],
             'summary': f'{evals} native evaluations, {len(fails)} failures'}
+
+
+def creation_routes_isolation(tier='quick', seed=0):
+    """(shared with C04) a Golomb code handed to a mutable bitstring is its own: changing that object in place must not change what the same value encodes to afterwards"""
+    from props import C04
+    r = C04.dtype_routes_isolation(tier, seed, only=('ue', 'se', 'uie', 'sie'))
+    for b in r.get('bounded', []):
+        b['id'] = b['id'].replace('C04/', 'C10/')
+    r['id'] = 'C10.isolation'
+    return r
